@@ -36,8 +36,8 @@ EXPLANATION = ('Proved: field-level correctness of is_zero/reciprocal(+retry loo
                'operations and to_bits on binary-field representations for all random bits; lifting (constants of the extension '
                'field, out_conv). That the executable extension/binary field models are fields is property C20. Unsupported '
                'configuration skipped: non-prime field with t>0 and m >= q (sectypes._SecFld asserts ext_deg == 1). Known finding '
-               '(open): to_bits on a lifted odd prime field, key C04-to_bits-lifted-prime; public int operand outside range(q) with a '
-               'lifted type in * and /, key C04-lifted-int-operand.')
+               '(open): to_bits on a lifted odd prime field, key C04-to_bits-lifted-prime; public int operands outside range(q) with a '
+               'lifted type in * and / were a finding (repaired in /repo, 293218b): regression input kept.')
 ASSUMPTIONS = ['random bits of to_bits are not observed directly: they are recovered as (opened c) xor a; by toBits_binary / '
                'and_or_bitwise the results do not depend on them',
                'is_zero_public: the mask is recovered as opened/a (a != 0)',
@@ -574,9 +574,8 @@ def tobits_finding(ctx):
 
 
 def int_operand_finding(ctx):
-    """directed input for the open finding C04-lifted-int-operand"""
-    data = {'kind': 'lifted-int-operand', 'm': 3, 't': 1, 'no_prss': False, 'seed': 1, 'q': 3, 'value': 2, 'int': 5,
-            'finding_key': 'C04-lifted-int-operand'}
+    """regression input of the former finding C04-lifted-int-operand (repo fix 293218b)"""
+    data = {'kind': 'lifted-int-operand', 'm': 3, 't': 1, 'no_prss': False, 'seed': 1, 'q': 3, 'value': 2, 'int': 5}
     ok, msg = replay(ctx, data)
     ctx.case(('lifted-int-operand', 3))
     ctx.count('int operand >= q with a lifted type (directed)')
@@ -639,7 +638,7 @@ def run(ctx):
     int_operand_finding(ctx)
     ctx.note('observation (outside the statement, triaged by the coordinator): a lifted secure field type rejects public '
              'operands of the subfield type GF(q) with TypeError (sectypes.SecureObject._coerce accepts only elements of the lifted '
-             'field); int operands are used in lifted configurations (ints outside range(q): open finding C04-lifted-int-operand)')
+             'field); int operands are used in lifted configurations, also outside range(q) (repaired finding, repo fix 293218b)')
 
 
 def search(ctx):
